@@ -15,6 +15,9 @@ import (
 
 var authNames = []string{"none", "awaitDHKey", "awaitRevealSig", "awaitSig"}
 
+// 0: both sides allow exactly the version under test; 1/2: a resp. b allows both versions
+var c07mix int
+
 type c07sys struct {
 	l *link
 	w *world
@@ -27,8 +30,15 @@ func (g *gen) c07start(w *world, pattern int, version int, polExtra int, prelude
 	if version == 3 {
 		pol = 4
 	}
-	a := w.newParty(partyCfg{policies: pol | polExtra | 32, keyIdx: 0})
-	b := w.newParty(partyCfg{policies: pol | polExtra | 16, keyIdx: 1})
+	polA, polB := pol, pol
+	switch c07mix { // one side allows both versions, the other only the one under test
+	case 1:
+		polA = 6
+	case 2:
+		polB = 6
+	}
+	a := w.newParty(partyCfg{policies: polA | polExtra | 32, keyIdx: 0})
+	b := w.newParty(partyCfg{policies: polB | polExtra | 16, keyIdx: 1})
 	l := &link{w: w, a: a, b: b}
 	establish := func() {
 		l.enqueue(b, []otr3.ValidMessage{w.query(b)})
@@ -159,6 +169,16 @@ func init() {
 				}
 			}
 		}
+		// the two sides' policies differ but share a version: started by query (either side) and by
+		// whitespace tag
+		for _, version := range []int{3, 2} {
+			for c07mix = 1; c07mix <= 2; c07mix++ {
+				for _, pattern := range []int{1, 2, 6} {
+					g.c07explore(w, pattern, version, 0, 0, &budget)
+				}
+			}
+		}
+		c07mix = 0
 		extra["schedules"] = n - budget
 		extra["panics"] = panicCount
 		olog.export(extra)
